@@ -4,8 +4,17 @@
       sfmodel gsm dec        one data region per stdin line (hex, 33-byte frames; a short last frame is zero-padded)
                              -> per frame 160 shorts as 4-digit hex, frames separated by one blank; `x` = bad magic
       sfmodel gsm dec49      the same for 65-byte WAV49 blocks -> 320 shorts per block
+      sfmodel gsm script     scripts:
+
+      == <name>
+      codec gsm wav=<0|1> [normF=0|1 normD=0|1 variant=sse2|lrint]
+      load <hex> dlen=<n> [hdr=<n>]         -> frames=<n>     read handle; hex = the file from the data offset to its end,
+                                                              dlen = psf->datalength, hdr = numSampleFrames (AIFF)
+      r <ty> <i|f> <count>                  -> ret=<n> err=0 data=<hex of the cells written, then a5 fill>
+      seek <offset> <whence>                -> ret=-1 err=E   (sf.seekable = 0: sf_seek refuses everything)
+      cseek <offset>                        -> ret=<n>|-1     gsm610_seek called directly (psf->seek), not through sf_seek
 -/
-import SfModel.Gsm
+import SfModel.GsmFile
 import Driver.Util
 open Sf Sf.Gsm
 
@@ -21,8 +30,62 @@ def splitFrames (n : Nat) : Nat → List Byte → List (List Byte)
 
 def showShorts (l : List Int) : String := String.join (l.map fun v => hexFixed 4 (wrapU 16 v))
 
+structure DS where
+  cfg  : Cfg := ⟨false⟩
+  conv : Conv := {}
+  wavex : Bool := false
+  file : List Byte := []
+  blocks : Nat := 0
+  rh   : Option Block.RHandle := none
+  sticky : Bool := false
+
+def fillA5 (ty : Ty) (n : Nat) : String := String.join (List.replicate (n * ty.bits / 8) "a5")
+
+def runLine (ds : DS) (line : String) : DS × Option String :=
+  let toks := (line.splitOn " ").filter (· ≠ "")
+  match toks with
+  | [] => (ds, none)
+  | "codec" :: _ :: rest => ({ cfg := ⟨kvBool rest "wav" false⟩, conv := convOf rest, wavex := kvBool rest "wavex" false }, none)
+  | "load" :: rest =>
+    let (hex, opts) : String × List String :=
+      match rest with
+      | h :: o => if (h.splitOn "=").length > 1 then ("", rest) else (h, o)
+      | [] => ("", [])
+    let bytes := parseHexBytes hex
+    let dlen := kvNat opts "dlen" bytes.length
+    let hdr : Option Nat := (kvGet opts "hdr").bind (·.toNat?)
+    let h := openRead ds.cfg bytes dlen hdr
+    ({ ds with rh := some h, file := bytes, blocks := blocksOf ds.cfg dlen, sticky := false }, some s!"frames={h.frames}")
+  | ["r", tyS, _, nS] =>
+    match tyOf tyS, ds.rh with
+    | some ty, some h =>
+      let n := nS.toNat!
+      let err := if n == 0 && ds.sticky then "E" else "0"
+      let ds := if n == 0 then ds else { ds with sticky := false }
+      let (h', d, ret) := readCall h ds.conv ty n
+      ({ ds with rh := some h' }, some s!"ret={ret} err={err} data={showItems ty d ++ fillA5 ty (n - d.length)}")
+    | _, _ => (ds, some "bad-op")
+  | ["seek", _, _] => ({ ds with sticky := true }, some "ret=-1 err=E")
+  | ["skip"] => (ds, some "skipped")
+  | _ => (ds, some "bad-op")
+
+partial def loop (h : IO.FS.Stream) (ds : DS) : IO Unit := do
+  let line ← h.getLine
+  if line.isEmpty then return
+  let l := line.trimAscii.toString
+  if l.startsWith "== " then
+    IO.println l
+    loop h {}
+  else
+    let (ds', out) := runLine ds l
+    match out with
+    | some s => IO.println s
+    | none => pure ()
+    loop h ds'
+
 def cmd (args : List String) : IO UInt32 := do
   match args with
+  | ["script"] => loop (← IO.getStdin) {}; return 0
   | ["dec"] =>
     for line in (← readLines) do
       let bytes := parseHexBytes line
